@@ -169,6 +169,9 @@ def build_scenario(spec):
         S[tag + ".P"] = P
     rng = np.random.default_rng([spec["seed"], 7])
     S["g.pts"] = rng.uniform(size=(int(rng.integers(4, 12)), 2))
+    if rng.integers(0, 3) == 0:          # edge of the documented [0,1]^2 domain: an exact 1.0 and a -0.0 coordinate
+        S["g.pts"][0, 0] = 1.0
+        S["g.pts"][1, 1] = -0.0
     S["g.pts1"] = rng.uniform(size=(2,))
     S["g.pts2"] = rng.uniform(size=(2,))
     S["g.kvec"] = rng.uniform(size=2) * 6
